@@ -309,7 +309,11 @@ func BinRef(op string, a, b V) Expect {
 			if !intExact(a.I) || !intExact(b.I) {
 				return open()
 			}
-			return exact(Float(math.Pow(float64(a.I), float64(b.I))), "negative exponent gives a float")
+			f := math.Pow(float64(a.I), float64(b.I))
+			if f == math.Trunc(f) && math.Abs(f) < 1<<53 {
+				return anyOf("negative exponent: float, or int when the result is integral", Float(f), Int(int64(f)))
+			}
+			return exact(Float(f), "negative exponent gives a float")
 		}
 		if numeric {
 			if a.K == KInt && !intExact(a.I) || b.K == KInt && !intExact(b.I) {
